@@ -48,3 +48,21 @@ def check_msgqueue(prop, tier, replay):
                   assumptions=["the message queue between transport / NodeHost and the step worker (internal/server/message.go) "
                                "is decided as a sequential object: real MessageQueue vs MsgQueue.tla; MCMsgQueue checks "
                                "ExactlyOnce / DueHandedOver / NoEarlyDelivery exhaustively for a small queue"])
+
+
+def check_sendqueue(prop, tier, replay):
+    n, tr, st = (8, 6, 40) if tier == "quick" else (16, 20, 60)
+    batches = [{"first": k * tr, "traces": tr, "steps": st} for k in range(n)]
+    return tv_run(prop, tier, replay, harness_dirs=["transport"], pkg="internal/transport", test="TestVerifTqsim",
+                  trace_module="SendQueueTrace", tag="TQ-REPORT", count_tag="TQ-COUNT", batches=batches,
+                  env_of=_env, mc=[("MCSendQueue", "MC_SendQueue.cfg", 300, 4)], mc_deadlock=False,
+                  mc_expect_violation=[("MCSendQueue", "MC_SendQueue_abl.cfg", "Inv")],
+                  level="model_checking", build_name="cksim", merge_into_existing=True, max_workers=8,
+                  what="sending side of the transport: a message reached the connection that was never accepted, twice or out "
+                       "of order, or nothing got through in the fair period after the connection was healed",
+                  sig_of=lambda op, f: "C17:sendqueue:%s" % op,
+                  assumptions=["the per-target send queue of the transport (internal/transport/transport.go send / connectAndProcess / "
+                               "processMessages) is decided by SendQueue.tla: MCSendQueue checks that a registered queue always has a "
+                               "worker (ablation refuted); the real Transport over the in-package NOOP connection (connect and send "
+                               "failures on request, idle timeout lowered to 25 ms) is judged on what reaches the connection and on "
+                               "bounded progress after the heal; wall-clock timing never decides a verdict"])
